@@ -104,6 +104,27 @@ def deep_same(a, b, ordered=True):
     return eqv.same(a, b, 'keep' if ordered else 'sort')
 
 
+def equal_instances(a, b):
+    """"an equal instance" in the sense of ==, looked through containers and dataclass / attrs instances, with nan equal
+    to nan (a field omitted because it equals its default comes back as the default: 0.0 as 0, True as 1)"""
+    import dataclasses
+    import attr
+    if isinstance(a, float) and isinstance(b, float) and a != a and b != b:
+        return True
+    if dataclasses.is_dataclass(a) and not isinstance(a, type):
+        return type(a) is type(b) and all(equal_instances(getattr(a, f.name), getattr(b, f.name)) for f in dataclasses.fields(a))
+    if attr.has(type(a)):
+        return type(a) is type(b) and all(equal_instances(getattr(a, f.name), getattr(b, f.name)) for f in attr.fields(type(a)))
+    if isinstance(a, (list, tuple)) and type(a) is type(b):
+        return len(a) == len(b) and all(equal_instances(x, y) for x, y in zip(a, b))
+    if isinstance(a, dict) and type(a) is type(b):
+        return len(a) == len(b) and all(k in b and equal_instances(v, b[k]) for k, v in a.items())
+    try:
+        return bool(a == b)
+    except Exception:
+        return False
+
+
 # ---------------------------------------------------------------------------
 # generation
 
@@ -527,7 +548,7 @@ def oracle_class(case):
             return core.viol('class-differs', repr(type(back)), labels)
         for f in fields:
             a, b = getattr(inst, f['name']), getattr(back, f['name'])
-            if not (deep_same(a, b, not case.get('sort')) or a == b):
+            if not (deep_same(a, b, not case.get('sort')) or a == b or equal_instances(a, b)):
                 return core.viol('field-differs', '%s: %r vs %r' % (f['name'], a, b), labels)
     omitted = len(fields) - len(expected)
     return core.ok(omitted >= 1 and len(expected) >= 1, labels)
